@@ -25,6 +25,7 @@ pub mod c18;
 pub mod c19;
 pub mod c20;
 pub mod common;
+pub mod editapi;
 
 pub fn run(cfg: &Cfg) -> i32 {
     match cfg.id.as_str() {
